@@ -140,6 +140,33 @@ fn heading_sequences_case(tier: Tier, shard: u64, rep: &mut CaseReport) {
         }
     };
     rec(&mut seq, max_len, &mut index, shard, &mut f);
+    // beyond the exhaustive lengths: outlines that really reach depth six (the deepest Markdown has), and longer random ones
+    if shard == 0 {
+        for fixed in [
+            &[1u8, 2, 3, 4, 5, 6][..],
+            &[1, 2, 3, 4, 5, 6, 6],
+            &[1, 2, 3, 4, 5, 6, 5, 6],
+            &[1, 2, 3, 4, 5, 6, 2, 3, 4, 5, 6],
+            &[1, 2, 3, 4, 5, 6, 1],
+            &[2, 3, 4, 5, 6, 6],
+            &[1, 3, 5, 6, 6, 6],
+            &[6, 5, 4, 3, 2, 1],
+        ] {
+            f(fixed);
+        }
+    }
+    let mut lrng = Rng::new(0x5eed ^ (shard + 1) * 7919);
+    for _ in 0..tier.pick(40, 400) {
+        let len = lrng.range(6, 10);
+        let mut v: Vec<u8> = vec![];
+        for i in 0..len {
+            // mostly descend one level at a time so that deep chains are common
+            let prev = v.last().cloned().unwrap_or(0);
+            let l = if i == 0 { lrng.range(1, 2) as u8 } else if lrng.chance(2, 3) { (prev + 1).min(6) } else { lrng.range(1, 6) as u8 };
+            v.push(l);
+        }
+        f(&v);
+    }
     rep.count("events", n);
     rep.count("heading_sequences", n);
     rep.count("heading_sequences_well_nested_in", identity);
